@@ -160,3 +160,29 @@ def first_diff(x, y, path=''):
             if r: return r
         return None
     return None if x == y else (path, x, y)
+
+
+# ---- the interaction corpus (tools/orch/interact.py): run through implementation and model by every parser-level check
+
+def interaction_stream(chk, mode='file', suffix='', name='interactions'):
+    """runs every interaction program (and its variants) with `suffix` appended; returns (programs, {text: impl line})"""
+    from orch import interact
+    progs = interact.programs()
+    texts = []
+    for p in progs:
+        for t in [p['text']] + p['variants']:
+            if t + suffix not in texts: texts.append(t + suffix)
+    cases = [(mode, t) for t in texts]
+    a, b = run_both(chk, name, cases, robust=True)
+    chk.count(name, cases, [t for m, t in cases])
+    return progs, dict(zip(texts, a))
+
+
+def scan_comments(lines_by_text, texts):
+    """comment tokens (offset, text) of each text, from scan mode"""
+    sc = R.impl([R.case_line('scan', t) for t in texts])
+    out = {}
+    for t, l in zip(texts, sc):
+        u, js = parse_line(l)
+        out[t] = [(p, x) for (p, k, x) in impl_tokens(js) if k == 'Comment'] if 'toks' in js else None
+    return out
